@@ -250,6 +250,20 @@ MOTIFS['M28_flaky_node_inside_recurrent_subgraph'] = spec([
     node(3, [('a', inp(2))], is_rec=True, recur_k=2), node(4, [('a', rec(1, 3, 3))])])
 
 
+# one recurrent subgraph used in two roles, chosen by the input of the run: directly (a failure on the restart fails the run)
+# and as a one-of candidate (the failure is contained, the fallback is used)
+MOTIFS['M29_recurrent_subgraph_in_two_roles_by_input'] = spec([
+    node(0), node(1, [('a', inp(0))], body={'kind': 'labelhash', 'v': ['l0', 'l1']}),
+    node(2, [('a', inp(0))], has_additional=True, fails=[[1, 1, 'E0']]),
+    node(3, [('a', inp(2))], is_rec=True, recur_k=1), node(4, [('a', rec(2, 3, 2))]), node(5),
+    node(6, [('a', one(4, 5))]), node(7, [('a', sw(1, [('l0', 4), ('l1', 6)]))])])
+# one node in two roles, chosen by the input: a switch case (its failure fails the run) and a one-of candidate (contained)
+MOTIFS['M29b_node_as_case_and_as_candidate_by_input'] = spec([
+    node(0), node(1, [('a', inp(0))], body={'kind': 'labelhash', 'v': ['l0', 'l1']}),
+    node(2, [('a', inp(0))], fails=FAIL), node(3), node(4, [('a', one(2, 3))]),
+    node(5, [('a', sw(1, [('l0', 2), ('l1', 4)]))])])
+
+
 def _with_cb(sp, cb):
     sp = dict(sp)
     sp['cb'] = cb
